@@ -24,7 +24,7 @@ Import ListNotations.
 Local Open Scope N_scope.
 
 Section Model.
-  Variables K V O D : Type.           (* key, value, per-phase opaque output, digest *)
+  Variables K V Out D : Type.           (* key, value, per-phase opaque output, digest *)
   Variable keqb : K -> K -> bool.
   Variable kltb : K -> K -> bool.      (* the order of ToEncodingObj / Validate *)
   Variable veqb : V -> V -> bool.
@@ -73,7 +73,7 @@ Section Model.
     e_exec : N; e_state : N;     (* EIP-8037 execution / state gas contributions *)
     e_used : N;                  (* receipt.GasUsed *)
     e_nlogs : N;                 (* number of logs *)
-    e_out : O                    (* status, logs, contract address, request data … *)
+    e_out : Out                    (* status, logs, contract address, request data … *)
   }.
   Definition tx := view -> effects.
 
@@ -206,9 +206,9 @@ Section Model.
 
   (* ---- block, results ---- *)
   Record block := { b_pre : tx; b_txs : list tx; b_post : tx; b_gaslimit : N }.
-  Record receipt := { rc_out : O; rc_used : N; rc_cum : N; rc_log0 : N }.
+  Record receipt := { rc_out : Out; rc_used : N; rc_cum : N; rc_log0 : N }.
   Record presult := {
-    r_receipts : list receipt; r_gas : N; r_bal : cbal; r_post : O
+    r_receipts : list receipt; r_gas : N; r_bal : cbal; r_post : Out
   }.
   Record acct := { a_gp : gaspool; a_log : N; a_cb : cbal; a_rcs : list receipt }.
 
@@ -384,7 +384,7 @@ Section Model.
   (* ---- validation ---- *)
   Variable Hbal : bal -> D.               (* BlockAccessList.Hash *)
   Variable Hrec : list receipt -> D.      (* bloom + DeriveSha(receipts) *)
-  Variable Hreq : O -> D.                 (* CalcRequestsHash *)
+  Variable Hreq : Out -> D.                 (* CalcRequestsHash *)
   Variable Hroot : view -> D.             (* IntermediateRoot *)
 
   Record header := { h_gas : N; h_rec : D; h_req : D; h_bal : D; h_root : D }.
